@@ -344,6 +344,34 @@ example : openerCommentFile.flatten = "{ /* c */ a = 1; }".toList := by decide
 example : openerCommentFile.roundtrip = .ok "{   /* c */\na = 1; }".toList := by decide
 example : (match openerCommentFile.parse with | .ok s => s.beforeFlatB | _ => true) = false := by decide
 
+/-- the spacing statement for the GROWN fragment (parentheses, calls) under the container exclusion
+    alone (`beforeFlatG`: `beforeFlatB` carried through parentheses and calls) — false -/
+def frag_spacing_nf_grown_full : Prop :=
+  ∀ (f : File) (s : Src), f.wf = true → f.noLeadingWs = true → f.parse = .ok s → s.beforeFlatG = true →
+    (summ s.rebuildP).fileOk = true
+
+/-- `[⏎  ( /* c */ x)⏎]`: the comment after `(` becomes leading trivia of the value, the parenthesis
+    stays on one line, and the value is rendered `inline` after the own-line rendering of the comment
+    at the parenthesis' indentation: `(  /* c */⏎x)` — an indentation run after `(`, the value at
+    column 0 (open finding `C18-spacing-space-run-parenthesized_expression`, the parenthesis analogue
+    of `cex_block_comment_after_opener`; `expressions/parenthesis.py: rebuild` renders
+    `value.rebuild(indent, inline=True)` and `add_trivia` writes `format_trivia(before, indent)`).
+    An extension of `frag_spacing_nf` to parentheses needs the exclusion "the value of a parenthesis
+    whose leading gap has no line break has no leading trivia". -/
+def parenCommentFile : File :=
+  { items := .elem [] (.list (.elem "\n  ".toList (.paren (.cmt " ".toList "/* c */".toList
+      (.elem " ".toList (.leaf .ident "x".toList) .nil)) []) .nil) "\n".toList) .nil,
+    endGap := [] }
+
+theorem cex_comment_after_open_paren : ¬ frag_spacing_nf_grown_full := by
+  intro h
+  have := h parenCommentFile _ (by decide) (by decide) rfl (by decide)
+  revert this; decide
+
+example : parenCommentFile.flatten = "[\n  ( /* c */ x)\n]".toList := by decide
+example : parenCommentFile.roundtrip = .ok "[\n  (  /* c */\nx)\n]".toList := by decide
+example : parenCommentFile.basic = false := by decide
+
 /-- a file with comments in many gaps that satisfies the hypotheses -/
 def fragSample : File :=
   { items := .cmt [] "# h".toList (.elem "\n\n\n".toList
